@@ -8,6 +8,7 @@ G:    DedupGen   - every small rectangular table x key form (single, compound, N
 V:    DedupTrace - Hypothesis tables validated by TLC.
 """
 import json
+import random
 
 from harness import tlc, values, common
 from harness.core import Check
@@ -155,6 +156,33 @@ def record_traces(n_examples, seed):
         traces.append(tr)
         concrete.append({'rows': [repr(r) for r in rows], 'buffersize': bs})
     go()
+    # LARGE tables (the chunked sort behind every dedup operator: > 64 chunk files, > 256 rows per chunk)
+    rng = random.Random(seed)
+    for n, bs in ((343, 3), (343, 5), (700, 300), (130, 1)):
+        keys = [rng.choice([None, 1, 2, 3, u'x', 2.5, 7, 8]) for _ in range(n)]
+        ids = {}
+        K = [ids.setdefault(k, len(ids) + 1) for k in keys]
+        V = [rng.choice([0, 1, 2]) for _ in range(n)]
+        vconc = {0: None, 1: 1, 2: 2}
+        t = [['k', 'v', 'id']] + [[k, vconc[v], ID_BASE + i + 1] for i, (k, v) in enumerate(zip(keys, V))]
+        out, raised = {}, None
+        with common.private_tmp() as tmp:
+            kw = dict(buffersize=bs, tempdir=tmp)
+            try:
+                out['dup'] = [r[2] - ID_BASE for r in etl.data(etl.duplicates(t, 'k', **kw))]
+                out['uniq'] = [r[2] - ID_BASE for r in etl.data(etl.unique(t, 'k', **kw))]
+                out['dist'] = [r[2] - ID_BASE for r in etl.data(etl.distinct(t, 'k', **kw))]
+                dc = list(etl.data(etl.distinct(t, 'k', count='n', **kw)))
+                out['counts'] = [r[3] for r in dc]
+                out['isunique'] = bool(etl.isunique(t, 'k'))
+                out['conf'] = [r[2] - ID_BASE for r in etl.data(etl.conflicts(etl.cut(t, 'k', 'v', 'id'), 'k', exclude='id', **kw))]
+            except Exception as e:
+                raised = repr(e)
+                out = {'dup': [], 'uniq': [], 'dist': [], 'counts': [], 'isunique': False, 'conf': []}
+        tr = {'K': K, 'V': V, 'raised': raised is not None, 'exc': raised or ''}
+        tr.update(out)
+        traces.append(tr)
+        concrete.append({'rows': '%d rows over 8 key values' % n, 'buffersize': bs})
     return traces, concrete
 
 
